@@ -10,7 +10,8 @@ import vlib
 ok, log = vlib.build_coq()
 if not ok:
     print(log[-5000:]); sys.exit(1)
-vlib.build_mdriver()
+for P in vlib.extract_props():
+    vlib.build_mdriver(P)
 clib = vlib.build_clib()
 for h in sorted(glob.glob('harness/*.c')):
     vlib.build_cdriver(os.path.basename(h)[:-2], clib)
